@@ -158,6 +158,14 @@ func newHTTPConn(c *tls.Conn) *httpConn { return &httpConn{c: c, br: bufio.NewRe
 func (h *httpConn) get(host, path string) httpResp {
 	h.c.SetDeadline(time.Now().Add(ioTimeout))
 	if _, err := fmt.Fprintf(h.c, "GET %s HTTP/1.1\r\nHost: %s\r\nUser-Agent: verif-c06\r\n\r\n", path, host); err != nil {
+		// The server may already have refused the handshake (TLS 1.3 judges
+		// the client certificate after the client is done) and closed: the
+		// write then meets a reset, but the alert it sent first is still
+		// readable and is the real answer.
+		var b [1]byte
+		if _, rerr := h.c.Read(b[:]); rerr != nil && isTLSAlert(rerr) && !isTransport(rerr) {
+			return httpResp{Err: rerr}
+		}
 		return httpResp{Err: err}
 	}
 	resp, err := http.ReadResponse(h.br, nil)
